@@ -65,6 +65,7 @@ def parseStmt (s : IS) : List String → IS × Option Stmt
   | ["closestream", p] => (s, some (.closeStream (strIdx s p)))
   | ["exitproc", k] => (s, some (.exitproc ((indexOf s.procs k).getD 999)))
   | ["enter"] => (s, some .enter)
+  | ["enterdl", us] => (s, some (.enterDl us.toNat!))
   | ["leave"] => (s, some .leave)
   | ["goself"] => (s, some .goSelf)
   | ["finish", k] => (s, some (.finish ((indexOf s.thrs k).getD 999)))
